@@ -253,7 +253,64 @@ pub fn containers() {
             (cl, l.mk())
         }, plain);
     }
+    cycles();
     println!("containers done");
+}
+
+/// A two-object cycle routed through one container position: after the handles are dropped, one `collect_cycles()` must
+/// drop both values exactly once and release both boxes (`allocated_bytes` back to where it was) — whatever the position
+/// does with its `Cc` when the owner is dropped (a `ManuallyDrop` never releases it).
+macro_rules! cycle_probe {
+    ($name:ident, $desc:expr, $ty:ty, $wrap:expr) => {{
+        struct $name {
+            slot: RefCell<Option<$ty>>,
+            dropped: std::rc::Rc<Cell<usize>>,
+        }
+        unsafe impl Trace for $name {
+            fn trace(&self, ctx: &mut Context<'_>) {
+                self.slot.trace(ctx);
+            }
+        }
+        impl Finalize for $name {}
+        impl Drop for $name {
+            fn drop(&mut self) {
+                self.dropped.set(self.dropped.get() + 1);
+            }
+        }
+        let dropped = std::rc::Rc::new(Cell::new(0usize));
+        let before = rust_cc::state::allocated_bytes().unwrap_or(0);
+        {
+            let a = Cc::new($name { slot: RefCell::new(None), dropped: dropped.clone() });
+            let b = Cc::new($name { slot: RefCell::new(None), dropped: dropped.clone() });
+            let wrap: fn(Cc<$name>) -> $ty = $wrap;
+            *a.slot.borrow_mut() = Some(wrap(b.clone()));
+            *b.slot.borrow_mut() = Some(wrap(a.clone()));
+        }
+        collect_cycles();
+        collect_cycles();
+        let after = rust_cc::state::allocated_bytes().unwrap_or(0);
+        println!("cycle {} dropped={} leaked_bytes={}", $desc, dropped.get(), after as i64 - before as i64);
+    }};
+}
+
+fn cycles() {
+    cycle_probe!(CyCc, "cc", Cc<CyCc>, |x| x);
+    cycle_probe!(CyVec, "vec(cc)", Vec<Cc<CyVec>>, |x| vec![x]);
+    cycle_probe!(CyBox, "box(cc)", Box<Cc<CyBox>>, |x| Box::new(x));
+    cycle_probe!(CySlice, "slice(cc)", Box<[Cc<CySlice>]>, |x| vec![x].into_boxed_slice());
+    cycle_probe!(CyArr, "arr(cc)", [Cc<CyArr>; 1], |x| [x]);
+    cycle_probe!(CySome, "some(cc)", Option<Cc<CySome>>, |x| Some(x));
+    cycle_probe!(CyOk, "ok(cc)", Result<Cc<CyOk>, u8>, |x| Ok(x));
+    cycle_probe!(CyErr, "err(cc)", Result<u8, Cc<CyErr>>, |x| Err(x));
+    cycle_probe!(CyT2, "tuple(prim,cc)", (u8, Cc<CyT2>), |x| (1u8, x));
+    cycle_probe!(CyT3, "tuple(cc,prim,prim)", (Cc<CyT3>, u8, u16), |x| (x, 1u8, 2u16));
+    cycle_probe!(CyCell, "cell0(cc)", RefCell<Cc<CyCell>>, |x| RefCell::new(x));
+    cycle_probe!(CyAus, "aus(cc)", AssertUnwindSafe<Cc<CyAus>>, |x| AssertUnwindSafe(x));
+    cycle_probe!(CyMd, "md(cc)", ManuallyDrop<Cc<CyMd>>, |x| ManuallyDrop::new(x));
+    cycle_probe!(CyVecMd, "vec(md(cc))", Vec<ManuallyDrop<Cc<CyVecMd>>>, |x| vec![ManuallyDrop::new(x)]);
+    cycle_probe!(CyMdSome, "md(some(cc))", ManuallyDrop<Option<Cc<CyMdSome>>>, |x| ManuallyDrop::new(Some(x)));
+    cycle_probe!(CyErrVec, "err(vec(cc))", Result<u8, Vec<Cc<CyErrVec>>>, |x| Err(vec![x]));
+    cycle_probe!(CySomeBox, "some(box(cc))", Option<Box<Cc<CySomeBox>>>, |x| Some(Box::new(x)));
 }
 
 // ------------------------------------------------------------------------------------------------ C20 layout
